@@ -13,10 +13,12 @@ func init() {
 	register(&Property{
 		ID:        "C12",
 		Title:     "All dataplanes agree on the policy verdict",
-		Technique: "static sibling cross-check: proto.Rule match-field coverage and action-universe coverage of the four rule evaluators (iptables/nftables renderer, BPF program builder, Windows HNS flattener, application-layer checker)",
+		Technique: "static sibling cross-check: proto.Rule match-field coverage and action-universe coverage of the four rule evaluators (iptables/nftables renderer, BPF program builder, Windows HNS flattener, application-layer checker); guard/fill/return slot consistency of their memoising getters; register liveness across BPF program splits (shared with C11)",
 		DesignRef: "DESIGN.md §3 C12",
 		Explanation: "Verdict equality itself is not decidable statically. Decided: a sibling agreement that is necessary for it. (parity) For every match field of proto.Rule (universe computed from the generated struct, shared with C08/C11/C30) each of the four evaluators either reads the field in the closure of its per-rule entry point, or appears in a frozen, reasoned table of fields that evaluator cannot observe or explicitly rejects; a field that one evaluator consumes and a sibling silently ignores makes them disagree on every rule using it. " +
-			"(actions) Every evaluator maps the whole action universe (the case constants of the iptables renderer's action switch: allow, deny, pass, next-tier, log) — none falls into an unknown-action default. (staged) Every evaluator that turns policy IDs into enforcement skips staged policy kinds.",
+			"(actions) Every evaluator maps the whole action universe (the case constants of the iptables renderer's action switch: allow, deny, pass, next-tier, log) — none falls into an unknown-action default. (staged) Every evaluator that turns policy IDs into enforcement skips staged policy kinds. " +
+			"(memo) Every memoising getter of an evaluator package (per-flow string forms in the application-layer checker, the policy-group UID of the iptables renderer) tests, fills and returns one and the same cache slot, so the value an evaluator matches on does not depend on which sibling getter ran earlier in the evaluation. " +
+			"(split) The BPF evaluator keeps matching the packet's own fields when a policy program is split mid-rule: C11's split discipline (index stash/restore/dispatch, callers reload live registers) armed under this id.",
 		NotDecided: "That two evaluators give a consumed field the same meaning (polarity/direction are decided per evaluator by C08, C11, C30); evaluation order; the kernel.",
 		Assumptions: []string{
 			"go/types + go/ssa model; interface calls resolved by CHA within the loaded roots",
@@ -30,6 +32,17 @@ func init() {
 				Old: "\tif rule.NotProtocol != nil {\n\t\tlog.WithField(\"proto\", rule.NotProtocol).Debugf(\"NotProtocol match\")\n\t\tp.writeProtoMatch(true, rule.NotProtocol)\n\t}\n", New: "", Expect: "C12.parity/bpf/NotProtocol"},
 			{Name: "Windows flattener no longer rejects negated ports", File: "felix/dataplane/windows/policysets/policysets.go",
 				Old: "\tif len(pRule.NotSrcPorts) > 0 || len(pRule.NotDstPorts) > 0 {\n\t\treturn true\n\t}\n", New: "", Expect: "C12.parity/windows/Not"},
+			{Name: "source-IP memo guarded by the destination slot (copy/paste between sibling getters)", File: "app-policy/checker/requestcache.go",
+				Old: "\tif r.srcIPStr == \"\" {", New: "\tif r.dstIPStr == \"\" {", Expect: "C12.memo/app-policy/requestCache.getSrcIPStr"},
+			{Name: "destination-IP memo filled into the source slot", File: "app-policy/checker/requestcache.go",
+				Old: "\t\tr.dstIPStr = r.GetDestIP().String()", New: "\t\tr.srcIPStr = r.GetDestIP().String()", Expect: "C12.memo/app-policy/requestCache.getDstIPStr"},
+			{Name: "IP+port key getter returns the plain IP slot", File: "app-policy/checker/requestcache.go",
+				Old: "\treturn r.dstIPProtoPort", New: "\treturn r.dstIPStr", Expect: "C12.memo/app-policy/requestCache.getDstIPProtoPortStr"},
+			{Name: "BPF ports loop keeps R1 across a program split without reloading", File: c11File,
+				Old: "\t\tif p.maybeSplitProgram() {\n\t\t\t// Program was split so the next instruction goes in the new program.\n\t\t\t// Need to reload our register(s).\n\t\t\tp.b.Load16(asm.R1, asm.R9, leg.offsetToStatePortField())\n\t\t}\n",
+				New: "\t\tp.maybeSplitProgram()\n", Expect: "C12.split/caller/Builder.writePortsMatch"},
+			{Name: "BPF program split inside the CIDR section loop loses R2", File: c11File,
+				Old: "\t\t\tlastAddr = addr\n", New: "\t\t\tlastAddr = addr\n\t\t\tp.maybeSplitProgram()\n", Expect: "C12.split/caller/Builder.writeCIDRSMatch"},
 		},
 	})
 }
@@ -101,6 +114,16 @@ func runC12(c *Ctx) {
 		}
 	}
 	c12Actions(c, p)
+	c.Rule("C12.memo", "E-PAIR", "in every memoising getter of an evaluator package (a receiver field tested for zero, filled on the zero edge, and returned) the guard field, the filled field(s) and the returned field name one cache slot", 4)
+	c12Memo(c, p)
+	// The BPF evaluator matches ports/addresses held in scratch registers; when the program is
+	// split mid-rule those registers no longer hold the packet's fields, so the part of the rule
+	// after the split point is evaluated on garbage while iptables/nftables/the checker evaluate
+	// the packet's own port: the split discipline of C11 is a necessary condition of agreement.
+	c.Rule("C12.split", "E-PAIR/E-ORDER", "the BPF evaluator keeps evaluating the packet's own fields across a program split: trampoline index stash/restore/dispatch pair up and callers reload the registers that are live across maybeSplitProgram (c11Split)", 11)
+	p11 := c.Load(c11PolPkg, c11AsmPkg, c11StatePkg, c11RulesPkg)
+	m11 := c11BuildModel(c, p11)
+	c.Alias("C11.split", "C12.split", func() { c11Split(c, m11) })
 }
 
 // c12Actions: the action universe is the set of string constants the iptables renderer's
@@ -178,4 +201,272 @@ func c12StringConstsIn(fn *ssa.Function) map[string]bool {
 		}
 	})
 	return out
+}
+
+// ---------------------------------------------------------------------- memo --
+
+// c12Memo: lazily memoised per-flow/per-rule values of the evaluators.  A method with a
+// pointer receiver r is a memoising getter when, on the "is zero" edge of a test of a
+// receiver field F (r.F == zero, len(r.F) == 0, r.F == nil, !r.F), it stores receiver
+// fields G (directly or through helpers it hands r to) and it returns a receiver field
+// H that is among G (or F is among G and F has the result's type).  The three roles must
+// name one cache slot: the guard must test a field the arm fills (F in G), and a
+// returned receiver field must be one the arm fills (H in G).  A guard on a sibling's
+// slot makes the value depend on which other getter ran first in the evaluation (empty
+// string / nil for the rest of the request), a store into or a return of a sibling's
+// slot hands one side's value to the other side's matchers.
+func c12Memo(c *Ctx, p *Prog) {
+	n := 0
+	for _, ev := range c12Evaluators {
+		pk := p.SSAPkg(ev.pkg)
+		if pk == nil {
+			c.Lost("SSA package %s", ev.pkg)
+		}
+		for _, fn := range p.AllFuncs() {
+			if fn.Pkg != pk || fn.Parent() != nil || fn.Signature.Recv() == nil || len(fn.Blocks) == 0 || len(fn.Params) == 0 {
+				continue
+			}
+			if _, isPtr := fn.Signature.Recv().Type().Underlying().(*types.Pointer); !isPtr {
+				continue
+			}
+			if fn.Signature.Results().Len() != 1 {
+				continue
+			}
+			n += c12MemoFn(c, p, ev.name, fn)
+		}
+	}
+	if n == 0 {
+		c.Lost("no memoising getter found in the evaluator packages")
+	}
+}
+
+type c12Guard struct {
+	iff    *ssa.If
+	field  *types.Var
+	region map[*ssa.BasicBlock]bool
+	stored map[*types.Var]bool
+}
+
+func c12MemoFn(c *Ctx, p *Prog, evName string, fn *ssa.Function) int {
+	recv := fn.Params[0]
+	var guards []*c12Guard
+	for _, b := range fn.Blocks {
+		if len(b.Instrs) == 0 {
+			continue
+		}
+		iff, ok := b.Instrs[len(b.Instrs)-1].(*ssa.If)
+		if !ok {
+			continue
+		}
+		fv, zeroOnTrue, ok := c12ZeroTest(iff.Cond, recv)
+		if !ok {
+			continue
+		}
+		succ := b.Succs[0]
+		if !zeroOnTrue {
+			succ = b.Succs[1]
+		}
+		if len(succ.Preds) != 1 {
+			continue // the zero edge goes straight to the join: nothing is done only-when-zero
+		}
+		g := &c12Guard{iff: iff, field: fv, region: map[*ssa.BasicBlock]bool{}, stored: map[*types.Var]bool{}}
+		for _, rb := range fn.Blocks {
+			if succ == rb || succ.Dominates(rb) {
+				g.region[rb] = true
+			}
+		}
+		// direct stores first; only when the arm has none, look into helpers it hands r to
+		for _, depthCap := range []int{0, 3} {
+			for rb := range g.region {
+				for _, in := range rb.Instrs {
+					c12RecvStores(in, recv, 3-depthCap, g.stored)
+				}
+			}
+			if len(g.stored) > 0 {
+				break
+			}
+		}
+		if len(g.stored) > 0 {
+			guards = append(guards, g)
+		}
+	}
+	if len(guards) == 0 {
+		return 0
+	}
+	// receiver fields returned
+	returned := map[*types.Var]bool{}
+	for _, ret := range returnsOf(fn) {
+		for _, rv := range ret.Results {
+			for _, leaf := range c43Leaves(rv) {
+				if fv := c12RecvFieldLoad(leaf.v, recv); fv != nil {
+					returned[fv] = true
+				}
+			}
+		}
+	}
+	resT := fn.Signature.Results().At(0).Type()
+	n := 0
+	for _, g := range guards {
+		hInG := false
+		for h := range returned {
+			if g.stored[h] {
+				hInG = true
+			}
+		}
+		fInG := g.stored[g.field]
+		fInH := false
+		if returned[g.field] {
+			for st := range g.stored {
+				if types.Identical(st.Type(), g.field.Type()) {
+					fInH = true // tests and returns F, fills a like-typed slot
+				}
+			}
+		}
+		if !(hInG || fInH || (fInG && types.Identical(g.field.Type(), resT) && len(returned) > 0)) {
+			continue // not a memoising getter (lazy initialisation of something it does not return)
+		}
+		// a compound guard (r.a == zero && r.b == zero): one of the nested tests may cover the slot
+		if !fInG {
+			for _, o := range guards {
+				if o != g && o.stored[o.field] && c12SameStores(o.stored, g.stored) {
+					fInG = true
+				}
+			}
+		}
+		n++
+		key := "C12.memo/" + evName + "/" + fnName(fn)
+		site := p.Pos(g.iff.Cond.Pos())
+		var bad []string
+		if !fInG {
+			bad = append(bad, fmt.Sprintf("the guard tests %s for its zero value but the guarded arm fills %s: whether the value is ever computed depends on whether the other slot happens to be filled already", g.field.Name(), c12VarNames(g.stored)))
+		}
+		for h := range returned {
+			if !g.stored[h] {
+				bad = append(bad, fmt.Sprintf("returns field %s, which the memoising arm (filling %s) never sets", h.Name(), c12VarNames(g.stored)))
+			}
+		}
+		sort.Strings(bad)
+		c.Check(len(bad) == 0, key, site,
+			fmt.Sprintf("guard field %s, filled field(s) %s and returned field(s) %s name one cache slot", g.field.Name(), c12VarNames(g.stored), c12VarNames(returned)),
+			fnName(fn)+": "+strings.Join(bad, "; ")+" — the evaluator then matches on a value that is not this flow's (the sibling dataplanes evaluate the packet's own field)")
+	}
+	return n
+}
+
+func c12SameStores(a, b map[*types.Var]bool) bool {
+	for k := range b {
+		if !a[k] {
+			return false
+		}
+	}
+	return true
+}
+
+func c12VarNames(m map[*types.Var]bool) string {
+	var out []string
+	for v := range m {
+		out = append(out, v.Name())
+	}
+	sort.Strings(out)
+	return "{" + strings.Join(out, ",") + "}"
+}
+
+// c12RecvFieldLoad: v is a load of a field of *recv (r.F); returns F.
+func c12RecvFieldLoad(v ssa.Value, recv ssa.Value) *types.Var {
+	u, ok := v.(*ssa.UnOp)
+	if !ok || u.Op.String() != "*" {
+		return nil
+	}
+	fa, ok := u.X.(*ssa.FieldAddr)
+	if !ok || fa.X != recv {
+		return nil
+	}
+	return structField(fa.X.Type(), fa.Field)
+}
+
+// c12ZeroTest: cond tests a receiver field against its zero value; zeroOnTrue tells
+// which edge is taken when the field is zero.
+func c12ZeroTest(cond ssa.Value, recv ssa.Value) (fv *types.Var, zeroOnTrue bool, ok bool) {
+	neg := false
+	for {
+		u, isU := cond.(*ssa.UnOp)
+		if !isU || u.Op.String() != "!" {
+			break
+		}
+		neg = !neg
+		cond = u.X
+	}
+	if f := c12RecvFieldLoad(cond, recv); f != nil { // bool flag: `if r.done` / `if !r.done`
+		return f, neg, true
+	}
+	bo, isB := cond.(*ssa.BinOp)
+	if !isB {
+		return nil, false, false
+	}
+	op := bo.Op.String()
+	if op != "==" && op != "!=" {
+		return nil, false, false
+	}
+	for _, pr := range [][2]ssa.Value{{bo.X, bo.Y}, {bo.Y, bo.X}} {
+		if !c12IsZeroConst(pr[1]) {
+			continue
+		}
+		x := pr[0]
+		if call, isC := x.(*ssa.Call); isC {
+			if b, isBi := call.Call.Value.(*ssa.Builtin); isBi && b.Name() == "len" && len(call.Call.Args) == 1 {
+				x = call.Call.Args[0]
+			}
+		}
+		if f := c12RecvFieldLoad(x, recv); f != nil {
+			return f, (op == "==") != neg, true
+		}
+	}
+	return nil, false, false
+}
+
+func c12IsZeroConst(v ssa.Value) bool {
+	cst, ok := v.(*ssa.Const)
+	if !ok {
+		return false
+	}
+	if cst.Value == nil {
+		return true // nil / zero struct
+	}
+	switch s := cst.Value.ExactString(); s {
+	case `""`, "0", "false":
+		return true
+	}
+	return false
+}
+
+// c12RecvStores adds the fields of *recv stored by in — directly, or (depth ≤ 3) by a
+// statically resolved callee that is handed recv.
+func c12RecvStores(in ssa.Instruction, recv ssa.Value, depth int, out map[*types.Var]bool) {
+	switch x := in.(type) {
+	case *ssa.Store:
+		if fa, ok := x.Addr.(*ssa.FieldAddr); ok && fa.X == recv {
+			if fv := structField(fa.X.Type(), fa.Field); fv != nil {
+				out[fv] = true
+			}
+		}
+	case ssa.CallInstruction:
+		if depth >= 3 {
+			return
+		}
+		callee := calleeFn(x.Common())
+		if callee == nil || len(callee.Blocks) == 0 {
+			return
+		}
+		args := x.Common().Args
+		for i, a := range args {
+			if a != recv || i >= len(callee.Params) {
+				continue
+			}
+			for _, b := range callee.Blocks {
+				for _, cin := range b.Instrs {
+					c12RecvStores(cin, callee.Params[i], depth+1, out)
+				}
+			}
+		}
+	}
 }
